@@ -1,8 +1,8 @@
 CONSTANTS
   RATE = 8
   WIDTH = 12
-  Disabled = {"constraint_evals"}
-  UseEnvConfigs = FALSE
+  Mutants = {{"constraint_evals"}}
+  ConfigSet = "one"
 INIT Init
 NEXT Next
 CHECK_DEADLOCK FALSE
